@@ -143,7 +143,7 @@ func pairUnit[V any](tname string, data func(seed int) []V, i, j int, three bool
 		if parse {
 			// the scanner/parser pair of a parse has many mutually dependent operations of its own (C11 explores
 			// those); here the question is interference with the other thread: preemption bounding decides
-			o.SkipA, o.Bounds, o.CapB = true, []int{1}, 20000
+			o.SkipA, o.Bounds, o.CapB = true, []int{1, 2}, 20000
 		}
 		if r.Tier == "thorough" {
 			o.CapA, o.Bounds, o.CapB = 1000000, []int{1, 2, 3}, 1000000
